@@ -31,7 +31,7 @@ func NewUDPClient(local netip.Addr) (*UDPClient, error) {
 	return &UDPClient{Conn: c}, nil
 }
 
-func (c *UDPClient) Close()               { c.Conn.Close() }
+func (c *UDPClient) Close()                { c.Conn.Close() }
 func (c *UDPClient) Local() netip.AddrPort { return c.Conn.LocalAddr().(*net.UDPAddr).AddrPort() }
 
 func (c *UDPClient) Send(dst netip.AddrPort, b []byte) error {
